@@ -30,6 +30,7 @@ CFG = dict(
         "Tab.table_poly_closed_ff", "Tab.table_poly_closed_ft", "Tab.table_poly_closed_tf", "Tab.table_poly_closed_tt", "poly_closed",
         "Tab.table_low_caps_planar", "low_cap_volume_zero", "poly_volume_eq_solid", "cell_volume_pos",
         "Tab.table_cap_canonical", "Tab.table_cap_canon_empty",
+        "volume_box_eq_cells", "march_volume_nonneg", "march_volume_positive", "weld_preserves_volume", "march_weld_volume_positive",
         # exactly the cells the real marcher visits
         "marched_perm_box", "marched_closed",
     ],
@@ -41,7 +42,10 @@ CFG = dict(
                      "march_weld_balanced", "table_triangle_outward_corners", "table_triangle_outward", "march_volume_translation_invariant",
                      "marched_perm_box", "table_inside_tests", "Tab.table_poly_wellformed", "Tab.table_det_codes", "Tab.table_pos_codes",
                      "Tab.table_cell_volume_corners_ff", "Tab.table_cell_volume_corners_ft", "Tab.table_cell_volume_corners_tf",
-                     "Tab.table_cell_volume_corners_tt"],
+                     "Tab.table_cell_volume_corners_tt", "Tab.table_poly_closed_ff", "Tab.table_poly_closed_ft", "Tab.table_poly_closed_tf",
+                     "Tab.table_poly_closed_tt", "Tab.table_low_caps_planar", "Tab.table_cap_canonical", "Tab.table_cap_canon_empty",
+                     "Tab.table_cell_volume_positive_corner", "poly_closed", "low_cap_volume_zero", "poly_volume_eq_solid", "cell_volume_nonneg",
+                     "cell_volume_pos", "volume_box_eq_cells", "weld_preserves_volume"],
     streams=[dict(name="c09", n=dict(quick=8, thorough=80), timeout=dict(quick=600, thorough=3600))],
     trusted=T_COMMON + [
         "engine F extractor /verif/go/facts/c09.go (go/parser; every unexpected AST shape is an error)",
@@ -49,7 +53,7 @@ CFG = dict(
         "driver's n log n evaluation of Closed and of Balanced (cross-checked against the quadratic specification predicate on meshes <= 150 triangles on every run)",
     ],
     residue=[
-        "ORIENTATION: proved per triangle (emitted_triangle_outward: for every grid, cutoff, cell and emitted triangle, at the interpolated positions, normal . (d0+d1+d2) >= 0, and > 0 when no outside end sample equals the cutoff; d_i = inside->outside direction of the lattice edge of corner i) and origin-independence of the signed volume of any balanced surface (volume_translation_invariant). PER-CELL VOLUME (new): cell_volume_nonneg - for every sign pattern and all positions tau_e in [0,1] of the vertices on the sign-changing cube edges, 6*volume (against the cell's low corner) of the table triangles plus the cap triangles of the three high faces is >= 0; proved by multi-affinity (each det is affine in each parameter, triangles have three different corners) from the 36450 kernel-evaluated corner values (Tab.table_cell_volume_corners_*); Tab.table_cell_volume_positive_corner: a positive corner exists unless the cell is all-outside. The caps are well defined for every face pattern including the ambiguous ones (chain = edge pieces next to inside corners + reversed table segments; closedness of the cell polyhedron polyTris checked numerically for all 256 cases, not as a theorem: the balancedB decide timed out in the kernel). NOT proved: C09_volume_positive_full (a def) - that the TOTAL signed volume of a box is positive: missing (i) strict positivity of the cell volume in the open parameter cube (converse corner correspondence), (ii) the sum over the box (caps of neighbouring cells cancel, caps vanish on the boundary layer, each closed cell solid may be translated to its own low corner), (iii) that the three low-face caps contribute nothing against the cell's low corner is used informally (they lie in the coordinate planes through it); decided per run by c09.holds.outward (signed volume > 0, Float) and, per triangle, by c09.holds.tri_outward. The stronger per-edge form normal . d_i > 0 is FALSE for this table (72 of 820 triangles, e.g. row 23 triangle (2,9,7)); the sum form is what holds",
+        "POSITIVE VOLUME is now a theorem in lattice-edge ids and exact arithmetic: march_volume_positive (= C09_volume_positive_full): box of cells with outside boundary layer, ANY sign pattern, every vertex strictly between the two ends of its lattice edge, non-empty surface => 0 < signed volume; march_volume_nonneg with parameters in [0,1]; march_weld_volume_positive transfers it through any weld map that preserves positions (weld_preserves_volume: dropped triangles have two corners at one position). Also proved: emitted_triangle_outward (per triangle), volume_translation_invariant. NOT covered by these theorems: (a) IEEE rounding of the interpolation and the float-keyed weld, which moves a welded vertex by up to 1e-3 (the real weld is not position-preserving: exact-arithmetic statement only; the change of volume is bounded by surface area x 1e-3 but that bound is not a theorem); (b) parameters exactly 0 or 1 (a sample equal to the cutoff): only >= 0 is proved; (c) the link 'box of cells' -> 'cells the real marcher visits' is marched_perm_box for the EDGE multiset, not restated for the triangle list / volume. Per run: c09.holds.outward (total signed volume > 0 on the real mesh) and c09.holds.tri_outward. The per-edge form normal . d_i > 0 is FALSE for this table (72 of 820 triangles); the sum form is what holds",
         "c09.holds.tri_outward skips triangles with a corner within the weld radius of a lattice corner or on several sign-changing edges (their lattice edge is not determined by the position); epsilon 1e-6 cell^2",
         "TRANSFER from lattice-edge ids to the real mesh: the Balanced half transfers unconditionally (weld_preserves_balance / march_weld_balanced: any vertex identification, dropping triangles with two equal corners); 'exactly one' is PROVED to transfer only under the hypothesis that the float vertex map is injective on the sign-changing lattice edges (march_weld_closed, weld_preserves_nodup) - i.e. when no two distinct sign-changing lattice edges produce vertices in one weld cell; the hypothesis is sufficient, not necessary, it is NOT a theorem and it is FALSE in general: a sample EQUAL to the cutoff gives interpolation parameter 0/1, so up to six lattice edges produce the same corner position. Observed: lattice-aligned single shapes, shapes touching at a point/edge/corner stay closed (strict oracle c09.holds.closed on the lattice-aligned classes, both tiers, single block and across seams); two inside regions separated only by samples equal to the cutoff (two boxes touching at a lattice face) are welded into coincident sheets: balanced, but 32 directed edges matched twice = known finding C09-touching-at-cutoff (op c09.holds.closed_touching_at_cutoff_witness, replayed every run; c09.holds.balanced is true on it). SECOND failing class found by the lattice-aligned generators = known finding C09-cutoff-noise-line: an axis-aligned capsule with whole-cell radius on a lattice line at 5 or 10 cubes per unit has a whole lattice LINE of samples at -2.2e-16 (float noise below the cutoff); the one-sample ridge is welded flat, 76 directed edges matched twice, balanced (op c09.holds.closed_cutoff_noise_line_witness; the same capsules at 1, 2, 4, 8 cubes per unit are exact and pass the strict oracle)",
         "that LookupOrAdd (1e-4) / WeldByFloat3Attribute (1e-3) give ONE id to the two float computations of one lattice edge (interp_symmetric is the exact-arithmetic statement) and do not merge distinct lattice edges when cell size >> 1e-3 and no sample is within float noise of the cutoff: observed by the oracles on the final mesh, not proved",
